@@ -648,7 +648,7 @@ fn lie(r: &mut Rng, l: &mut Layout) {
     let edge = [0u64, 1, 0xFFFE, 0xFFFF, 0x10000, 0xFFFFFFFE, 0xFFFFFFFF, 0x100000000, u64::MAX - 1, u64::MAX, 20, 46];
     let n = l.entries.len();
     for _ in 0..r.range(1, 3) {
-        match r.below(17) {
+        match r.below(19) {
             0 => l.lie_count = Some(*r.pick(&edge)),
             1 => l.lie_cd_size = Some(*r.pick(&edge)),
             2 => l.lie_cd_offset = Some(*r.pick(&edge)),
@@ -680,6 +680,20 @@ fn lie(r: &mut Rng, l: &mut Layout) {
                     }
                     14 => { e.flags |= 1; }
                     15 => { match r.below(3) { 0 => e.crc = 0, 1 => e.crc ^= 1 << r.below(32), _ => { if !e.data.is_empty() { let p = r.below(e.data.len() as u64) as usize; e.data[p] ^= 1 << r.below(8); } } } }
+                    16 | 17 => {
+                        // extra fields whose LAST record declares a body that overruns the field by 1..5 bytes, or by
+                        // the maximum (0xFFFF): record walkers must not index past the end (central: the seekable
+                        // reader and new_append's ZIP64-record stripper; local: the streaming reader)
+                        let mut x: Vec<u8> = vec![];
+                        if r.chance(1, 2) { x.extend_from_slice(&[0xfe, 0xca, 2, 0, 1, 2]); }
+                        let id = *r.pick(&[0xcafeu16, 0x0001, 0x5455, 0x9901]);
+                        let body = { let n = r.below(6) as usize; r.bytes(n) };
+                        let over = *r.pick(&[1u16, 2, 3, 4, 5, 0xFFFF]);
+                        x.extend_from_slice(&id.to_le_bytes());
+                        x.extend_from_slice(&((body.len() as u16).wrapping_add(over)).max(body.len() as u16).to_le_bytes());
+                        x.extend_from_slice(&body);
+                        if k == 16 { e.central_extra = x; } else { e.local_extra = x.clone(); if r.chance(1, 2) { e.central_extra = x; } }
+                    }
                     _ => { e.central_extra = { let n = r.below(9) as usize; r.bytes(n) }; e.local_extra = { let n = r.below(9) as usize; r.bytes(n) }; }
                 }
             }
